@@ -130,6 +130,12 @@ Definition url_taglist (plain : bool) (r : reference) : str :=
   url_repo_base plain r ++ b "/tags/list".
 Definition url_upload (plain : bool) (r : reference) : str :=
   url_repo_base plain r ++ b "/blobs/uploads/".
+(* buildReferrersURL with an artifactType filter: "?" + url.Values{artifactType}.Encode() *)
+Definition url_referrers_at (plain : bool) (r : reference) (at_ : str) : str :=
+  url_referrers plain r ++ match at_ with [] => [] | _ => b "?artifactType=" ++ query_escape at_ end.
+(* buildRepositoryBlobMountURL: digest and source repository are printed as they are *)
+Definition url_mount (plain : bool) (r : reference) (d from : str) : str :=
+  url_upload plain r ++ b "?mount=" ++ d ++ b "&from=" ++ from.
 Definition url_base (plain : bool) (r : reference) : str :=
   scheme plain ++ b "://" ++ host_of (r_registry r) ++ b "/v2/".
 Definition url_catalog (plain : bool) (r : reference) : str :=
